@@ -503,6 +503,7 @@ pub fn run(r: &mut Report, ctx: &Ctx) {
             );
         }
     }
+    crate::seq::section(r, ctx, "generate");
 }
 
 fn rprefix<V: Variant>(st: Stream, n: u64) -> Result<(), String> {
